@@ -107,7 +107,7 @@ def law_checks(S, label, got, dm, f_hz, ref_hz, scale=None):
 
 def phase_cycles(dm, f_hz, ref_hz):
     """K*DM*f*(1/f_ref - 1/f)^2 in cycles (f in Hz; K in s MHz^2 = 1e12 s Hz^2)"""
-    d = 1 / ref_hz - 1 / f_hz
+    d = (0 if ref_hz is None else 1 / ref_hz) - 1 / f_hz          # (ref_hz None: infinite reference frequency)
     return RV(K0) * RV(10**12) * dm * f_hz * d * d
 
 
@@ -120,6 +120,7 @@ def phase_tol(S, dm, f_hz, ref_hz, positive=False):
 class TransferFunction(Unit):
     functions = ("pulsarbat.transforms.dedispersion:_transfer_function", "pulsarbat.transforms.dedispersion:DispersionMeasure.chirp_function")
     witnesses = 1
+    variants = (None, "inf-ref")        # concrete replay of each witness with an infinite reference frequency (1/f_ref = 0)
 
     DMU = {"pc/cm3": (u.pc / u.cm**3, Fraction(1)), "pc/m3": (u.pc / u.m**3, Fraction(1, 10**6)), "kpc/cm3": (u.kpc / u.cm**3, Fraction(1000))}
 
@@ -148,6 +149,9 @@ class TransferFunction(Unit):
         S.assume(cf_hz - 1 / (2 * dt_s) > 1)
         dmun = self.DMU[self.dmu][0]
         DM = pb.DM(np.array(dm, dtype=object), dmun, dtype=object) if S.symbolic else pb.DM(dm, dmun)
+        if S.variant == "inf-ref":
+            return {"DM": DM, "dm": dm, "cf": S.quantity(cf, FU[self.ucf][0]), "rf": np.inf * FU[self.uref][0],
+                    "dt": float(dt) * TU[self.udt][0], "cf_hz": cf_hz, "rf_hz": None, "dt_s": dt_s}
         return {"DM": DM, "dm": dm, "cf": S.quantity(cf, FU[self.ucf][0]), "rf": S.quantity(rf, FU[self.uref][0]),
                 "dt": float(dt) * TU[self.udt][0], "cf_hz": cf_hz, "rf_hz": rf_hz, "dt_s": dt_s}
 
@@ -180,6 +184,8 @@ class TransferFunction(Unit):
                 bad.append(z3.Or(c.re != outs[k].re, c.im != outs[k].im))        # returned value is exp(-i theta_k) itself
             checks.append(("phase-law-value", z3.Or(bad)))
         else:
+            if not np.all(np.isfinite(np.asarray(out))):
+                return checks + [("chirp-is-finite", z3.BoolVal(True))]
             bad = []
             for k in range(N):
                 ph = phase_cycles(dm, fk[k], a["rf_hz"])
